@@ -603,3 +603,70 @@ def validate_traces(traces, tag, module="TraceStruct", spec="TraceSpec", accepte
             nev += starts[j]
             batch = batch[j + 1:]
     return nval, nev, rejected
+
+
+# --------------------------------------------------------------------------
+# traces of inputs the repository itself provides
+# --------------------------------------------------------------------------
+def example_traces():
+    """Traces of examples/*.xml run through the library (hooks on)."""
+    import glob
+    cases = [{"k": "example:" + os.path.basename(f), "xml": open(f, encoding="utf-8").read(), "cfg": {}, "trace": True, "trace_cap": 60000}
+             for f in sorted(glob.glob(os.path.join(REPO, "examples", "*.xml")))]
+    res = run_cases(cases)
+    return [(c["k"], res[c["k"]]["trace"]) for c in cases if res[c["k"]].get("trace")], res
+
+
+def suite_traces(max_traces=4000):
+    """Run the repository's own test suite once with the hooks compiled in and
+    SVGDX_VERIF_TRACE_DIR set: every transform the suite performs (library calls and
+    the svgdx binary it spawns) leaves a trace file.  Returns [(name, [events])]."""
+    wd = workdir("suite")
+    tdir = os.path.join(wd, "traces")
+    os.makedirs(tdir, exist_ok=True)
+    env = dict(os.environ, CARGO_NET_OFFLINE="true", SVGDX_VERIF_TRACE_DIR=tdir)
+    lock = _locked(os.path.join(WORK, "buildsuite.lock"))
+    try:
+        p = subprocess.run(["cargo", "test", "--offline", "-q", "--features", "verif", "--manifest-path", os.path.join(REPO, "Cargo.toml"),
+                            "--target-dir", os.path.join(HARNESS, "target-tests")], env=env, stdout=subprocess.PIPE,
+                           stderr=subprocess.STDOUT, text=True)
+    finally:
+        lock.close()
+    if p.returncode != 0 and "test result" not in p.stdout:
+        shutil.rmtree(wd, ignore_errors=True)
+        raise ToolError("could not run the repository suite with hooks on:\n" + p.stdout[-2000:])
+    out = []
+    for name in sorted(os.listdir(tdir))[:max_traces]:
+        evs = []
+        with open(os.path.join(tdir, name)) as f:
+            for line in f:
+                try:
+                    evs.append(json.loads(line))
+                except Exception:
+                    pass
+        if evs:
+            out.append(("suite:" + name, evs))
+    shutil.rmtree(wd, ignore_errors=True)
+    return out, p.stdout[-600:]
+
+
+def validate_named_traces(rep, traces, tag, what, budget=60000):
+    """Validate traces against TraceStruct and record rejections as violations."""
+    sel, tot = [], 0
+    for k, t in traces:
+        if tot + len(t) <= budget:
+            sel.append((k, t))
+            tot += len(t)
+    nval, nev, rejected = validate_traces(sel, tag)
+    rep.traces += nval
+    rep.notes[f"{what}_traces_validated"] = nval
+    rep.notes[f"{what}_trace_events"] = nev
+    for k, matched, ev in rejected:
+        try:
+            evd = json.loads(json.loads(ev)) if ev.startswith('"') else ev
+        except Exception:
+            evd = ev
+        kind = evd.get("e", "?") if isinstance(evd, dict) else "?"
+        rep.violation(f"trace-rejected:{what}:{kind}", {"source": k, "matched_events": matched, "offending_event": evd,
+                                                       "meaning": "the recorded execution is not a behaviour of TraceStruct.tla"})
+    return nval
